@@ -74,20 +74,24 @@ theorem length_filter_neq (ps : List Part) (h : ps.Nodup) (x : Part) (hx : x ∈
 
 /-- **at most one difference after removing one partition** (Part level). -/
 theorem pplain_remove_one (ps : List Part) (h : PWF ps) (ht : PAllTok ps) (htn : PTokNodup ps) (starts : Nat → Nat)
-    (size : Int) (hsize : 0 < size) (x : Part) (hx : x ∈ ps) :
+    (size : Int) (x : Part) (hx : x ∈ ps) :
     let S := pplain ps starts (psize ps size)
     let S' := pplain (ps.filter (neqP x)) starts (psize (ps.filter (neqP x)) size)
     (x ∉ S → ∀ a, a ∈ S' ↔ a ∈ S) ∧
     ∃ Z : List Part, Z.length ≤ 1 ∧ (∀ z ∈ Z, z ∉ S) ∧ ∀ a, a ∈ S' ↔ ((a ∈ S ∧ a ≠ x) ∨ a ∈ Z) := by
   have hlen := length_filter_neq ps h.nodup x hx
   simp only
-  by_cases hbig : size ≥ (ps.length : Int)
+  by_cases hbig : size ≤ 0 ∨ size ≥ (ps.length : Int)
   · -- both "all ACTIVE partitions"
-    have hn : psize ps size = ps.length := by unfold psize; simp [hbig]
+    have hn : psize ps size = ps.length := by
+      unfold psize
+      have : (decide (size ≤ 0) || decide (size ≥ (ps.length : Int))) = true := by simpa using hbig
+      rw [if_pos this]
     have hn' : psize (ps.filter (neqP x)) size = (ps.filter (neqP x)).length := by
       unfold psize
-      have : size ≥ ((ps.filter (neqP x)).length : Int) := by omega
-      simp [this]
+      have : (decide (size ≤ 0) || decide (size ≥ ((ps.filter (neqP x)).length : Int))) = true := by
+        simp only [Bool.or_eq_true, decide_eq_true_eq]; omega
+      rw [if_pos this]
     rw [hn, hn']
     have hS := pplain_all ps h ht starts ps.length (Nat.le_refl _)
     have hS' := pplain_all _ (h.filter (neqP x)) (ht.filter _) starts (ps.filter (neqP x)).length (Nat.le_refl _)
@@ -123,7 +127,7 @@ theorem pplain_remove_one (ps : List Part) (h : PWF ps) (ht : PAllTok ps) (htn :
 /-- **at most one difference after removing one partition**: the ids returned for the ring without
 `x` are those returned for the ring, minus `x.id`, plus at most one new id. -/
 theorem pshard_remove_one (ps : List Part) (h : PWF ps) (ht : PAllTok ps) (htn : PTokNodup ps) (starts : Nat → Nat)
-    (size now now' : Int) (hsize : 0 < size) (x : Part) (hx : x ∈ ps) :
+    (size now now' : Int) (x : Part) (hx : x ∈ ps) :
     (x.id ∉ pshard ps starts size 0 now →
       ∀ id, id ∈ pshard (ps.filter (neqP x)) starts size 0 now' ↔ id ∈ pshard ps starts size 0 now) ∧
     ∃ Z : List Int, Z.length ≤ 1 ∧ (∀ z ∈ Z, z ∉ pshard ps starts size 0 now) ∧
@@ -131,7 +135,7 @@ theorem pshard_remove_one (ps : List Part) (h : PWF ps) (ht : PAllTok ps) (htn :
         ((id ∈ pshard ps starts size 0 now ∧ id ≠ x.id) ∨ id ∈ Z) := by
   have hinj := h.idInj
   have h' := h.filter (neqP x)
-  obtain ⟨hsame, Zp, hlen, hZ, hiff⟩ := pplain_remove_one ps h ht htn starts size hsize x hx
+  obtain ⟨hsame, Zp, hlen, hZ, hiff⟩ := pplain_remove_one ps h ht htn starts size x hx
   have hmem : ∀ id, id ∈ pshard ps starts size 0 now ↔ ∃ p ∈ pplain ps starts (psize ps size), p.id = id := by
     intro id; rw [mem_pshard ps hinj, psel_plain]
   have hmem' : ∀ id, id ∈ pshard (ps.filter (neqP x)) starts size 0 now' ↔
